@@ -2,6 +2,16 @@
 PY = "/venv/bin/python"
 
 REGISTRY = {
+    "C17": {
+        "modules": ["sharp"],
+        "level": "proof",
+        "level_text": "The six getDistance/setDistance methods are verified against real-arithmetic contracts with the statement's constants (range clamp, power law, inverse voltage), "
+                      "monotonicity and the set/read inverse are lemmas over the spec given the algebraic laws of pow; the Python clamp is proved bounded/finite/monotone for all non-NaN IEEE doubles (z3 FP).",
+        "level_note": "libm pow laws are assumed (axioms), floats are reals except in the FP clamp lemmas, the wpilib sim round trip is assumed; the exhaustive 4096-code native sweep is a bounded stand-in.",
+        "design_ref": "DESIGN.md section 5 C17",
+        "replay": [PY, "native/replay_c17.py"],
+        "standins": {"quick": {"bounded: real drivers on all 4096 ADC codes + special doubles; sim helpers through the real AnalogInputSim": [PY, "native/replay_c17.py"]}},
+    },
     "C18": {
         "modules": ["units"],
         "level": "proof",
